@@ -917,6 +917,208 @@ theorem decisions_same_with_and_without_one_reload (D : List Nat) (s : St) (modl
   | nil => rfl
   | cons o t ih => simp [List.filter_cons, HOp.isTraffic, ih]
 
+/-! ### handles: a static well-formedness condition on histories instead of `handleOk` along the run -/
+
+/-- "a handle is not reused while it may still be live": `L` = the handles handed out by an `in` and not yet returned by an
+    `out`.  A decidable (Boolean) predicate on the op history alone. -/
+def wfHandles : List Nat → List HOp → Bool
+  | _, [] => true
+  | L, .traffic (.enter h _ _) :: ops => !L.contains h && wfHandles (h :: L) ops
+  | L, .traffic (.leave h _) :: ops => wfHandles (L.filter (· != h)) ops
+  | L, _ :: ops => wfHandles L ops
+
+/-- the handles after one op -/
+def handlesAfter (L : List Nat) : HOp → List Nat
+  | .traffic (.enter h _ _) => h :: L
+  | .traffic (.leave h _) => L.filter (· != h)
+  | _ => L
+
+/-- every entry in flight sits under a handle of `L` -/
+def LiveIn (L : List Nat) (s : St) : Prop := ∀ z, (liveAt s z).isSome → z ∈ L
+
+theorem liveIn_step (L : List Nat) (s : St) (op : HOp) (h : LiveIn L s) : LiveIn (handlesAfter L op) (op.run s).1 := by
+  cases op with
+  | reload modl re only arg =>
+    intro z hz
+    simp only [HOp.run, liveAt, doLoad_live] at hz
+    exact h z hz
+  | traffic o =>
+    cases o with
+    | clock t => exact h
+    | mem m => exact h
+    | e y err q rt =>
+      intro z hz
+      simp only [HOp.run, TOp.run, liveAt, entry_live] at hz
+      exact h z hz
+    | enter hd y q =>
+      intro z hz
+      obtain ⟨-, -, -, -, -, hl⟩ := enterLive_spec s hd y q
+      simp only [HOp.run, TOp.run] at hz
+      rw [hl z] at hz
+      simp only [handlesAfter, List.mem_cons]
+      split_ifs at hz with hc
+      · exact Or.inl hc.2
+      · exact Or.inr (h z hz)
+    | leave hd err =>
+      intro z hz
+      simp only [HOp.run, TOp.run] at hz
+      simp only [handlesAfter, List.mem_filter, bne_iff_ne, ne_eq]
+      rcases hla : liveAt s hd with _ | ⟨h1, x, q, st⟩
+      · rw [exitLive_none s hd err hla] at hz
+        refine ⟨h z hz, ?_⟩
+        intro e; subst e; rw [hla] at hz; simp at hz
+      · obtain ⟨-, -, -, -, hl⟩ := exitLive_some s hd err h1 x q st hla
+        rw [hl z] at hz
+        split_ifs at hz with hc
+        · simp at hz
+        · exact ⟨h z hz, hc⟩
+
+theorem wfHandles_cons (L : List Nat) (op : HOp) (ops : List HOp) (h : wfHandles L (op :: ops) = true) :
+    wfHandles (handlesAfter L op) ops = true ∧ (∀ hd y q, op = .traffic (.enter hd y q) → hd ∉ L) := by
+  cases op with
+  | reload modl re only arg => exact ⟨h, by intro _ _ _ e; cases e⟩
+  | traffic o =>
+    cases o with
+    | clock t => exact ⟨h, by intro _ _ _ e; cases e⟩
+    | mem m => exact ⟨h, by intro _ _ _ e; cases e⟩
+    | e y err q rt => exact ⟨h, by intro _ _ _ e; cases e⟩
+    | leave hd err => exact ⟨h, by intro _ _ _ e; cases e⟩
+    | enter hd y q =>
+      simp only [wfHandles, Bool.and_eq_true, Bool.not_eq_true', List.contains_eq_mem, decide_eq_false_iff_not] at h
+      refine ⟨h.2, ?_⟩
+      intro hd' y' q' e
+      cases e
+      exact h.1
+
+/-- the reload conditions of `Unchanged` alone -/
+def ReloadsUnchanged (D : List Nat) : St → List HOp → Prop
+  | _, [] => True
+  | s, op :: ops =>
+    (match op with
+      | .traffic _ => True
+      | .reload modl _ only arg =>
+        (modl = "cb" ∧ ∀ rules, parseList parseCb arg = some rules → UnchangedFor cbCalc CbRule.valid (·.res) D s.cb only rules) ∨
+        (modl = "hot" ∧ ∀ rules, parseList parseHot arg = some rules → UnchangedFor hotCalc HotRule.valid (·.res) D s.hot only rules) ∨
+        (modl = "flow" ∧ (∀ rules, parseList parseFlow arg = some rules →
+            UnchangedFor flowCalc FlowRule.valid (·.res) D s.flow only rules ∧
+            ∀ z ∈ D, (nodeAt s z).isSome ∨ z ∉ flowTargets rules only)))
+    ∧ ReloadsUnchanged D (op.run s).1 ops
+
+/-- for a history whose handles are well-formed, `handleOk` holds all along the run -/
+theorem unchanged_of_wf (D : List Nat) (ops : List HOp) (L : List Nat) (s : St) (hL : LiveIn L s)
+    (hwf : wfHandles L ops = true) (hR : ReloadsUnchanged D s ops) : Unchanged D s ops := by
+  induction ops generalizing L s with
+  | nil => trivial
+  | cons op ops ih =>
+    obtain ⟨hwf', hfresh⟩ := wfHandles_cons L op ops hwf
+    obtain ⟨hop, hrest⟩ := hR
+    refine ⟨?_, ih _ _ (liveIn_step L s op hL) hwf' hrest⟩
+    cases op with
+    | reload modl re only arg => exact hop
+    | traffic o =>
+      cases o with
+      | clock t => trivial
+      | mem m => trivial
+      | e y err q rt => trivial
+      | leave hd err => trivial
+      | enter hd y q =>
+        intro _ e he
+        have : hd ∈ L := hL hd (by rw [he]; rfl)
+        exact absurd this (hfresh hd y q rfl)
+
+/-- the driver state after a history -/
+def stateAfter : St → List HOp → St
+  | s, [] => s
+  | s, op :: ops => stateAfter (op.run s).1 ops
+
+theorem wf_after (L : List Nat) (s : St) (h ops : List HOp) (hL : LiveIn L s) (hwf : wfHandles L (h ++ ops) = true) :
+    ∃ L', LiveIn L' (stateAfter s h) ∧ wfHandles L' ops = true := by
+  induction h generalizing L s with
+  | nil => exact ⟨L, hL, hwf⟩
+  | cons op h ih =>
+    obtain ⟨hwf', -⟩ := wfHandles_cons L op (h ++ ops) hwf
+    exact ih _ _ (liveIn_step L s op hL) hwf'
+
+/-- **C14 at decision level, from the initial state.**  `h` is any history whatsoever from the driver's initial state
+    (loads of anything, traffic, reloads); `ops` continues it with traffic and reloads.  If the handles of the whole history
+    are well-formed (`wfHandles []`, a Boolean on the ops), `D` is closed (the flow controllers of `D` read only nodes of
+    `D`: that is what makes `D` "`x` and every resource `x`'s rules refer to"), and every reload in `ops` leaves the rules of
+    `D` unchanged, the decisions on `D` in `h ++ ops` after `h` are those of `h ++ (ops without the reloads)`. -/
+theorem decisions_unaffected_by_reload_from_initial (D : List Nat) (h ops : List HOp)
+    (hwf : wfHandles [] (h ++ ops) = true) (hc : Closed D (stateAfter {} h))
+    (hR : ReloadsUnchanged D (stateAfter {} h) ops) :
+    (decisions (stateAfter {} h) ops).filter (·.1 ∈ D)
+      = (decisions (stateAfter {} h) (ops.filter HOp.isTraffic)).filter (·.1 ∈ D) := by
+  obtain ⟨L', hL', hwf'⟩ := wf_after [] {} h ops (by intro z hz; simp [liveAt] at hz) hwf
+  exact decisions_unaffected_by_reload_partial D _ ops hc (unchanged_of_wf D ops L' _ hL' hwf' hR)
+
+/-! ### the node side condition, discharged for reachable states -/
+
+theorem nodesThere_run (s : St) (op : HOp) (h : NodesThere s) : NodesThere (op.run s).1 := by
+  cases op with
+  | reload modl re only arg => exact nodesThere_doLoad s modl re only arg h
+  | traffic o =>
+    cases o with
+    | clock t => exact h
+    | mem m => exact h
+    | e y err q rt => exact nodesThere_entry s y err q rt h
+    | enter hd y q => exact nodesThere_enterLive s hd y q h
+    | leave hd err => exact nodesThere_exitLive s hd err h
+
+/-- the invariant holds in every state reachable from the initial one -/
+theorem nodesThere_reachable (h : List HOp) : NodesThere (stateAfter {} h) := by
+  have gen : ∀ (s : St), NodesThere s → NodesThere (stateAfter s h) := by
+    induction h with
+    | nil => intro s hs; exact hs
+    | cons op ops ih => intro s hs; exact ih _ (nodesThere_run s op hs)
+  exact gen {} (by intro y c hc; simp [Mgr.empty] at hc)
+
+/-- "each reload lists rules `isEqualsTo` the bound ones on `D`" — and nothing else about the state: for a flow reload the
+    node condition of `ReloadsUnchanged` is replaced by a condition on the rule list alone (no rule of a resource outside `D`
+    reads the statistic of a resource of `D`; such a rule cannot change a decision on `D`, but it would make the reload create
+    `D`'s node earlier than the traffic does, and the proof compares states literally) -/
+def ReloadsUnchangedStatic (D : List Nat) : St → List HOp → Prop
+  | _, [] => True
+  | s, op :: ops =>
+    (match op with
+      | .traffic _ => True
+      | .reload modl _ only arg =>
+        (modl = "cb" ∧ ∀ rules, parseList parseCb arg = some rules → UnchangedFor cbCalc CbRule.valid (·.res) D s.cb only rules) ∨
+        (modl = "hot" ∧ ∀ rules, parseList parseHot arg = some rules → UnchangedFor hotCalc HotRule.valid (·.res) D s.hot only rules) ∨
+        (modl = "flow" ∧ (∀ rules, parseList parseFlow arg = some rules →
+            UnchangedFor flowCalc FlowRule.valid (·.res) D s.flow only rules ∧
+            ∀ r ∈ rules, ruleTgt r ∈ D → r.res ∈ D)))
+    ∧ ReloadsUnchangedStatic D (op.run s).1 ops
+
+theorem reloadsUnchanged_of_static (D : List Nat) (ops : List HOp) (s : St) (hn : NodesThere s)
+    (h : ReloadsUnchangedStatic D s ops) : ReloadsUnchanged D s ops := by
+  induction ops generalizing s with
+  | nil => trivial
+  | cons op ops ih =>
+    obtain ⟨hop, hrest⟩ := h
+    refine ⟨?_, ih _ (nodesThere_run s op hn) hrest⟩
+    cases op with
+    | traffic o => trivial
+    | reload modl re only arg =>
+      rcases hop with hh | hh | ⟨hm, hh⟩
+      · exact Or.inl hh
+      · exact Or.inr (Or.inl hh)
+      · refine Or.inr (Or.inr ⟨hm, fun rules hp => ?_⟩)
+        obtain ⟨hu, hin⟩ := hh rules hp
+        exact ⟨hu, flow_nodes_present D s only rules hn hu hin⟩
+
+/-- **C14 at decision level, for reachable states, side conditions discharged.**  `h` any history from the initial
+    state, `ops` any continuation; handles well-formed (Boolean `wfHandles`); `D` closed; every reload of `ops` lists, for the
+    resources of `D` it touches, rules `isEqualsTo` the bound ones in order (and, for flow, no rule of another resource that
+    reads `D`'s statistic).  Then the decisions on `D` are those of the same traffic without the reloads. -/
+theorem decisions_unaffected_by_reload_reachable (D : List Nat) (h ops : List HOp)
+    (hwf : wfHandles [] (h ++ ops) = true) (hc : Closed D (stateAfter {} h))
+    (hR : ReloadsUnchangedStatic D (stateAfter {} h) ops) :
+    (decisions (stateAfter {} h) ops).filter (·.1 ∈ D)
+      = (decisions (stateAfter {} h) (ops.filter HOp.isTraffic)).filter (·.1 ∈ D) :=
+  decisions_unaffected_by_reload_from_initial D h ops hwf hc
+    (reloadsUnchanged_of_static D ops _ (nodesThere_reachable h) hR)
+
 end decisions
 
 end Sentinel.C14
